@@ -116,7 +116,7 @@ class Exec(tprog.Impl):
             r = int(t[2])
             tr = self.traced(lambda: self.ts[r].backward(g))
             after = self.snap()
-            inside = self.reach(r)
+            inside = {k_ for k_ in self.reach(r) if self.ts[k_] is not None and self.ts[k_].requires_grad}      # a frozen operand is outside
             for key, b in before.items():
                 kind, k = key
                 if kind == 'grad' and k in inside: continue
@@ -170,6 +170,13 @@ def op_case(rng, op):
     for k, s in enumerate(shp):
         sh = tuple(common.parse_ints(s.split('|')[0])) if '|' in s else ()
         lines.append(f"t bw {nl + k} {show_ints(sh)} {show_floats(gen_dag.rand_data(rng, sh))}")
+    # freeze some operands (their gradients stay) and sweep again: a frozen operand is outside the graph being differentiated
+    frozen = [k for k in range(nl) if len(leaves[k]) >= 3 and leaves[k][2] and rng.chance(.5)]
+    if frozen:
+        lines += [f't setrg {k} 0' for k in frozen]
+        for k, s in enumerate(shp):
+            sh = tuple(common.parse_ints(s.split('|')[0])) if '|' in s else ()
+            lines.append(f"t bw {nl + k} {show_ints(sh)} {show_floats(gen_dag.rand_data(rng, sh))}")
     lines += [f't val {k}' for k in range(nl + nout)]
     return {'kind': 'op', 'op': op, 'lines': lines, 'alias': alias}
 
